@@ -428,7 +428,7 @@ def main(argv):
         tier = os.environ.get("VERIF_TIER", "quick")
         if "--tier" in argv:
             tier = argv[argv.index("--tier") + 1]
-        rc, _, _, _ = run_check(prop, tier, write_evidence=(REPO == "/repo"))
+        rc, _, _, _ = run_check(prop, tier, write_evidence=(REPO == "/repo" and not os.environ.get("TV_NOEVIDENCE")))
         return rc
     if cmd == "explain":
         with open(argv[2]) as f:
